@@ -1,6 +1,6 @@
 #!/bin/bash
 # tools/seeded_confirm.sh <Cxx> <mN>   — confirm a sub-agent's change in its scratch worktree and keep it under seeded/
-P=$1; M=$2; WT=/tmp/mut-$P; SRC=$WT/MUTANT/$M; DST=/verif/seeded/$P-$M
+P=$1; M=$2; WT=/tmp/${3:-mut}-$P; SRC=$WT/MUTANT/$M; NAME=${4:-$P-$M}; DST=/verif/seeded/$NAME
 HEAD=$(git -C /repo rev-parse HEAD)
 git -C $WT checkout -q -- pycaption 2>/dev/null; git -C $WT checkout -q --detach $HEAD || exit 9
 if ! git -C $WT apply $SRC/patch.diff 2>/dev/null; then
@@ -13,14 +13,14 @@ mkdir -p $DST; git -C $WT diff -- pycaption > $DST/patch.diff
 git -C $WT checkout -q -- pycaption
 (cd $WT && PYTHONPATH=$WT timeout 300 /venv/bin/python -B $SRC/demo.py >/tmp/demo_without.txt 2>&1); RC_WITHOUT=$?
 cp $SRC/demo.py $DST/demo.py; cp $SRC/notes.md $DST/notes.md 2>/dev/null
-echo "$P-$M: tests=[$T] demo_with_change=$RC_WITH demo_without=$RC_WITHOUT"
-python3 - "$P" "$M" "$T" "$RC_WITH" "$RC_WITHOUT" "$HEAD" <<'PY'
+echo "$NAME: tests=[$T] demo_with_change=$RC_WITH demo_without=$RC_WITHOUT"
+python3 - "$P" "$NAME" "$T" "$RC_WITH" "$RC_WITHOUT" "$HEAD" <<'PY'
 import json,sys
-p,m,t,rw,rwo,head=sys.argv[1:7]
-dst=f'/verif/seeded/{p}-{m}'
+p,name,t,rw,rwo,head=sys.argv[1:7]
+dst=f'/verif/seeded/{name}'
 ok = '217 passed' in t and rw=='1' and rwo=='0'
 notes=open(dst+'/notes.md').read() if __import__('os').path.exists(dst+'/notes.md') else ''
-meta={'id':f'{p}-{m}','breaks_property':p,'source':'independent sub-agent given only the property text and a scratch worktree',
+meta={'id':name,'breaks_property':p,'source':'independent sub-agent given only the property text and a scratch worktree',
  'needs_to_manifest':notes.strip()[:1500],
  'confirmed':{'repo_head':head,'tests_with_change':t,'demo_exit_with_change':int(rw),'demo_exit_without_change':int(rwo),'ok':ok},
  'ran':['git apply patch.diff in a scratch worktree synced to /repo HEAD','pytest (baseline command) with the change','demo.py with the change (must exit 1)','git checkout -- pycaption','demo.py without the change (must exit 0)']}
